@@ -184,7 +184,9 @@ func partGridWire(c *check.Ctx, a *acc) {
 		sort.Strings(v.quads)
 		return v, nil
 	}
-	same := func(x, y view) bool { return x.planes == y.planes && strings.Join(x.quads, ";") == strings.Join(y.quads, ";") }
+	same := func(x, y view) bool {
+		return x.planes == y.planes && strings.Join(x.quads, ";") == strings.Join(y.quads, ";")
+	}
 	for i := 0; i < n && c.Violations() == 0; i++ {
 		func() {
 			defer func() {
